@@ -18,7 +18,7 @@ import subprocess
 import sys
 import sysconfig
 
-from tools import common, shroudrun, extract_pystmts
+from tools import common, shroudrun, extract_pystmts, c03_helpers
 from tools.gen import pygen
 
 LEVEL = "proof"
@@ -81,7 +81,7 @@ THEOREMS = {
     ]
 }
 
-TAG_INT, TAG_STR, TAG_FLOAT, TAG_BOOL, TAG_NONE, TAG_CLS0 = 0, 1, 2, 3, 4, 10
+TAG_INT, TAG_STR, TAG_FLOAT, TAG_BOOL, TAG_NONE, TAG_LIST, TAG_CLS0 = 0, 1, 2, 3, 4, 7, 10
 INT_UNITS = set("bBhHiIlkLKn")
 FLOAT_UNITS = set("fd")
 
@@ -525,6 +525,9 @@ L = ctypes.CDLL(M.__file__)
 L.subj_trace.restype = ctypes.c_char_p
 def dec(e):
     if e[0] == "cls": return getattr(M, e[1])(e[2])
+    if e[0] == "pt": return M.Pt(e[1], e[2])
+    if e[0] == "list": return [dec(x) for x in e[1]]
+    if e[0] == "tuple": return tuple(dec(x) for x in e[1])
     if e[0] == "none": return None
     return e[1]
 def enc(v):
@@ -534,6 +537,9 @@ def enc(v):
     if isinstance(v, float): return {"f": v}
     if isinstance(v, str): return {"s": v}
     if isinstance(v, tuple): return {"t": [enc(x) for x in v]}
+    if isinstance(v, list): return {"l": [enc(x) for x in v]}
+    if type(v).__name__ == "Pt": return {"pt": [v.x, v.y]}
+    if hasattr(v, "getflag"): return {"o": type(v).__name__, "flag": v.getflag()}
     return {"o": type(v).__name__}
 calls = json.load(open(callsfile))
 out = open(outfile, "a")
@@ -557,10 +563,12 @@ for c in calls:
     L.subj_reset()
     try:
         r = fn(*pos) if kw is None else fn(*pos, **kw)
+        trace = L.subj_trace().decode("latin-1")
         res = {"i": i, "r": "ok", "value": enc(r)}
     except BaseException as e:
+        trace = L.subj_trace().decode("latin-1")
         res = {"i": i, "r": "exc", "type": type(e).__name__, "msg": str(e)[:200]}
-    res["trace"] = L.subj_trace().decode("latin-1")
+    res["trace"] = trace
     out.write(json.dumps(res) + "\n"); out.flush()
 '''
 
@@ -623,6 +631,14 @@ def good_value(p, idx, alt=0):
         return ["int", [5, 6, 0][(idx + alt) % 3]]
     if b in ("cls", "clsptr"):
         return ["cls", p.cls, 20 + idx + alt]
+    if b in ("pt", "ptref"):
+        return ["pt", 30 + idx + alt, 0.5 + idx]
+    if b in ("ilist", "ilist_inout", "vec"):
+        return ["tuple" if alt else "list", [["int", 3 + idx], ["int", 4 + alt], ["bool", True]][: 3 - (idx % 2)]]
+    if b == "dlist":
+        return ["list", [["float", 1.5 + idx], ["int", 2 + alt]]]
+    if b == "strlist":
+        return ["list", [["str", "ab%d" % idx], ["str", "c" * (alt + 1)]]]
     raise AssertionError(p.kind)
 
 
@@ -632,8 +648,12 @@ def bad_value(p):
         return ["int", 5]
     if b == "bool":
         return ["int", 1]
-    if b in ("cls", "clsptr"):
+    if b in ("cls", "clsptr", "pt", "ptref"):
         return ["int", 5]
+    if b in ("ilist", "ilist_inout", "vec", "dlist"):
+        return ["list", [["int", 1], ["str", "x"]]]
+    if b == "strlist":
+        return ["list", [["str", "a"], ["int", 3]]]
     if b in pygen.FLOATLIKE:
         return ["str", "x"]
     return ["str", "x"]
@@ -652,11 +672,25 @@ def py_accepts(p, v):
         return t == "str"
     if b in ("cls", "clsptr"):
         return t == "cls" and v[1] == p.cls
+    if b in ("pt", "ptref"):
+        return t == "pt"
+    if b in pygen.LISTKINDS:
+        if t not in ("list", "tuple"):
+            return False
+        elem = pygen.ELEM[b]
+        ok = {"int": ("int", "bool"), "double": ("int", "float", "bool"), "cstr": ("str",)}[elem]
+        return all(x[0] in ok for x in v[1])
     return False
 
 
 def raw(v):
-    return v[2] if v[0] == "cls" else v[1]
+    if v[0] == "cls":
+        return v[2]
+    if v[0] == "pt":
+        return (v[1], v[2])
+    if v[0] in ("list", "tuple"):
+        return [raw(x) for x in v[1]]
+    return v[1]
 
 
 def matches(f, pos, kw):
@@ -692,23 +726,34 @@ def enc_expected(v):
         return {"f": v}
     if isinstance(v, str):
         return {"s": v}
+    if isinstance(v, list):
+        return {"l": [enc_expected(x) for x in v]}
+    if isinstance(v, tuple):
+        return {"pt": [v[0], v[1]]}
     raise AssertionError(v)
 
 
 def expectation(f, S, flag):
     """(trace, encoded return value) the library contract prescribes for overload f with supplied S"""
-    vis = f.vis
     toks = []
     rets = []
-    if not f.ctor and f.result != "void":
+    if f.name == "getflag" and f.cls:
+        rets.append({"i": flag})
+    elif f.result in ("clsptr_res", "clsref_res"):
+        rets.append({"o": f.rescls, "flag": pygen.RESULT_VALUE[f.result]})
+    elif not f.ctor and f.result != "void":
         rets.append(enc_expected(pygen.RESULT_VALUE[f.result]))
     vi = 0
+    byname = {}
     for idx, p in enumerate(f.params):
-        if p.visible:
+        if p.kind == "implied":
+            toks.append(pygen.trace_value("implied", len(byname[p.of])))
+        elif p.visible:
             v = raw(S[vi]) if vi in S else p.default
+            byname[p.name] = v
             toks.append(pygen.trace_value(p.kind, v))
             if p.kind == "clsptr":
-                rets.append({"o": p.cls})       # the same Python object comes back
+                rets.append({"o": p.cls, "flag": v})       # the same Python object comes back
             elif p.intent == "inout":
                 rets.append(enc_expected(pygen.out_value(p, idx, raw(S[vi]))))
             vi += 1
@@ -719,7 +764,11 @@ def expectation(f, S, flag):
         head += "[%d]" % flag
     trace = "%s(%s);" % (head, ",".join(toks))
     if f.ctor:
-        value = {"o": f.cls}
+        fl = -1
+        for i, p in enumerate(f.vis):
+            if p.name == "flag":
+                fl = raw(S[i]) if i in S else p.default
+        value = {"o": f.cls, "flag": int(fl)}
     elif not rets:
         value = None
     elif len(rets) == 1:
@@ -731,8 +780,11 @@ def expectation(f, S, flag):
 
 def same_value(a, b):
     if isinstance(a, dict) and isinstance(b, dict):
-        if "t" in a and "t" in b:
-            return len(a["t"]) == len(b["t"]) and all(same_value(x, y) for x, y in zip(a["t"], b["t"]))
+        for k in ("t", "l"):
+            if k in a and k in b:
+                return len(a[k]) == len(b[k]) and all(same_value(x, y) for x, y in zip(a[k], b[k]))
+        if "pt" in a and "pt" in b:
+            return a["pt"][0] == b["pt"][0] and abs(a["pt"][1] - b["pt"][1]) < 1e-9
         if "f" in a and "f" in b:
             return abs(a["f"] - b["f"]) < 1e-9
     return a == b
@@ -785,6 +837,19 @@ def gen_calls(group, thorough, r):
             nn = list(vals)
             nn[i] = ["none"]
             add(nn, None, "none")
+            if p.base() in pygen.LISTKINDS:
+                items = vals[i][1]
+                for variant, why in ((["tuple", items], "tuple"), (["list", []], "empty-list"), (["int", 5], "not-iterable"),
+                                     (["list", items + items], "longer")):
+                    lv = list(vals)
+                    lv[i] = variant
+                    add(lv, None, why)
+                    add([], {vis[j].name: lv[j] for j in range(n)}, why + "-kw")
+                badit = bad_value(p)[1][1]
+                for k in range(len(items) + 1):
+                    lv = list(vals)
+                    lv[i] = ["list", items[:k] + [badit] + items[k:]]
+                    add(lv, None, "bad-item-%d" % k)
         add(vals + [["int", 1]], None, "surplus")
         add(vals, {"zz_unknown": ["int", 1]}, "unknown-kw-surplus")
         if n:
@@ -808,7 +873,9 @@ def call_target(lib, key, flag):
 
 def call_sig(c):
     def s(v):
-        return {"cls": lambda: "%s(%s)" % (v[1], v[2]), "none": lambda: "None"}.get(v[0], lambda: repr(v[1]))()
+        return {"cls": lambda: "%s(%s)" % (v[1], v[2]), "none": lambda: "None", "pt": lambda: "Pt(%s, %s)" % (v[1], v[2]),
+                "list": lambda: "[%s]" % ", ".join(s(x) for x in v[1]),
+                "tuple": lambda: "(%s,)" % ", ".join(s(x) for x in v[1])}.get(v[0], lambda: repr(v[1]))()
     a = [s(v) for v in c["pos"]]
     if c["kw"] is not None:
         a += ["%s=%s" % (k, s(v)) for k, v in c["kw"].items()] or ["**{}"]
@@ -827,7 +894,22 @@ def model_tag(v, clsids_by_name):
         return TAG_BOOL
     if t == "none":
         return TAG_NONE
+    if t in ("list", "tuple"):
+        return TAG_LIST
+    if t == "pt":
+        return clsids_by_name.get("Pt", TAG_CLS0 + 7)
     return clsids_by_name.get(v[1], TAG_CLS0 + 7)
+
+
+ACCEPTS = {"i": [0, 3], "d": [0, 2, 3]}       # replaced by the regenerated unit classes in run()
+
+
+def to_spec(v):
+    if v[0] in ("list", "tuple"):
+        return (v[0], [to_spec(x) for x in v[1]])
+    if v[0] in ("cls", "pt", "none"):
+        return ("none", None)
+    return (v[0], v[1])
 
 
 def check_library(ctx, drv, lib, thorough, r, dis_gen, dis_call, extra_calls=()):
@@ -855,6 +937,10 @@ def check_library(ctx, drv, lib, thorough, r, dis_gen, dis_call, extra_calls=())
         allcalls = []
         for key, group in groups.items():
             for f in group:
+                for p in f.params:
+                    DIST["kinds"][p.kind] = DIST["kinds"].get(p.kind, 0) + 1
+                rk = "result:" + str(f.result if not f.ctor else "ctor")
+                DIST["kinds"][rk] = DIST["kinds"].get(rk, 0) + 1
                 n, nd, first = pygen.shape_of(f)
                 k = "set=%d %s n=%d ndef=%d first=%d" % (len(group), "method" if f.cls and not f.ctor else ("ctor" if f.ctor else "func"),
                                                           n, nd, first)
@@ -894,6 +980,29 @@ def check_library(ctx, drv, lib, thorough, r, dis_gen, dis_call, extra_calls=())
             else:
                 reqs.append("disp kwds %s %s %s" % ("|".join(enc_params(p) for _n, p in nodes), pos, kw))
         model = drv.run(reqs) if drv.available() else [None] * len(reqs)
+        # conversion helpers (list-mode arrays, vectors): the helper model's verdict for every list argument
+        hreqs, hmap = [], {}
+        for c in allcalls:
+            group = groups[c["key"]]
+            if len(group) != 1:
+                continue
+            vis = group[0].vis
+            names = [p.name for p in vis]
+            given = dict(enumerate(c["pos"]))
+            for k, v in (c["kw"] or {}).items():
+                if k in names and names.index(k) not in given:
+                    given[names.index(k)] = v
+            for i, v in given.items():
+                if i < len(vis) and vis[i].base() in pygen.LISTKINDS:
+                    spec = to_spec(v)
+                    ms, _items = c03_helpers.model_obj(spec)
+                    elem = pygen.ELEM[vis[i].base()]
+                    if elem == "cstr":
+                        hreqs.append("charptr " + ms)
+                    else:
+                        hreqs.append("getlist %s %s" % (".".join(map(str, ACCEPTS["i" if elem == "int" else "d"])), ms))
+                    hmap.setdefault(c["i"], []).append(len(hreqs) - 1)
+        hmodel = drv.run(hreqs) if (drv.available() and hreqs) else []
         # ---------------- judge
         for c, mline in zip(allcalls, model):
             ctx.count(1)
@@ -969,6 +1078,12 @@ def check_library(ctx, drv, lib, thorough, r, dis_gen, dis_call, extra_calls=())
                 if not (res["r"] == "exc" and res["type"] == outcome[4:]):
                     dis_call.append({"call": lib.name + ":" + sig, "model": mline, "impl": res})
                 continue
+            hverdicts = [hmodel[j] for j in hmap.get(c["i"], [])] if hmodel else []
+            if any(h.startswith("err") for h in hverdicts):
+                # the dispatch model accepts the call, the helper model rejects a list argument
+                if not (res["r"] == "exc" and res["type"] in ("TypeError", "ValueError") and res["trace"] == ""):
+                    dis_call.append({"call": lib.name + ":" + sig, "model": mline + " / helper: " + ";".join(hverdicts), "impl": res})
+                continue
             if res["r"] != "ok":
                 dis_call.append({"call": lib.name + ":" + sig, "model": mline, "impl": res})
                 continue
@@ -983,6 +1098,11 @@ def check_library(ctx, drv, lib, thorough, r, dis_gen, dis_call, extra_calls=())
                 toks = m.group(2).split(",") if m.group(2) != "" else []
                 ti = 0
                 for p, a in zip(f.params, recv):
+                    if p.kind == "implied":
+                        if a != "i":
+                            bad = "model says %s for implied parameter %s" % (a, p.name)
+                        ti += 1
+                        continue
                     if not p.visible:
                         if a != "o":
                             bad = "model says %s for out parameter %s" % (a, p.name)
@@ -1051,7 +1171,7 @@ TEXT_LIBS = [
 ]
 
 
-DIST = {"overloads": {}, "arities": {}}
+DIST = {"overloads": {}, "arities": {}, "kinds": {}}
 
 
 def load_corpus():
@@ -1072,9 +1192,11 @@ def run(ctx):
     thorough = ctx.tier == "thorough"
     DIST["overloads"].clear()
     DIST["arities"].clear()
+    DIST["kinds"].clear()
     try:
         _changed, tstats, _live = extract_pystmts.regenerate()
         ctx.note("translator (py_statements / typemap PY_* -> Gen/PyStmts.lean)", tstats)
+        ACCEPTS["i"], ACCEPTS["d"] = _live["classes"]["i"], _live["classes"]["d"]
     except (extract_pystmts.Unclassified, RuntimeError) as e:
         ctx.tie_broken("pystmts-translator", str(e)[:800])
     ok = ctx.lean(MODULES, THEOREMS, extra_targets=("drv_pydispatch",))
@@ -1132,6 +1254,7 @@ def run(ctx):
     ctx.note("arities_driven (set size, #params, #defaults: #supplied, form -> valid calls)", dict(sorted(DIST["arities"].items())))
     alldef = sum(v for k, v in DIST["overloads"].items() if " first=0" in k and " n=0" not in k and not k.startswith("set=1 "))
     ctx.note("all_defaulted_overloads_in_overload_sets", alldef)
+    ctx.note("parameter_and_result_kinds (compiled libraries)", dict(sorted(DIST["kinds"].items())))
     ctx.note("libraries_compiled", [l.name for l in libs])
     ctx.note("libraries_text_only", len(tlibs))
     ctx.note("disagreements_emitted_text", len(dis_gen))
